@@ -108,7 +108,7 @@ def _corrupt(e):
             c["out"] = {"ok": c["in"]["lim"]}
         else:
             return None
-    elif op == "eta" and "eta" in o and len(o["eta"]) > 3 and o["eta"][-1] > 0:
+    elif op == "eta" and "eta" in o and len(o["eta"]) > 3 and o["eta"][-1] > 0 and c["in"]["m"]["k"] in ("periodic", "sporadic"):
         o["eta"][-1] -= 1
     elif op == "steps" and len(o.get("items", [])) > 2:
         del o["items"][1]
@@ -344,7 +344,7 @@ def c01(run):
     run.cov["rule"] = SCHED_RULE
     run.assumptions += SCHED_ASSUME
     world_stage(run, "fp-schedules", "systems", "MCSched.tla", "MCSched.cfg",
-                extra=["--families", "fp", "--nsys", _nsys(run, 80, 600)])
+                extra=["--families", "fp", "--nsys", _nsys(run, 150, 500)])
     _equational(run, "fp_p,fp_np,fp_lp,fp_fnp")
 
 
@@ -353,7 +353,7 @@ def c02(run):
     run.cov["rule"] = SCHED_RULE
     run.assumptions += SCHED_ASSUME
     world_stage(run, "edf-schedules", "systems", "MCSched.tla", "MCSched.cfg",
-                extra=["--families", "edf", "--nsys", _nsys(run, 500, 2500)])
+                extra=["--families", "edf", "--nsys", _nsys(run, 500, 4000)])
     _equational(run, "edf_p,edf_np,edf_lp,edf_fnp")
 
 
@@ -362,7 +362,7 @@ def c03(run):
     run.cov["rule"] = SCHED_RULE
     run.assumptions += SCHED_ASSUME
     world_stage(run, "fifo-schedules", "systems", "MCSched.tla", "MCSched.cfg",
-                extra=["--families", "fifo", "--nsys", _nsys(run, 500, 8000)])
+                extra=["--families", "fifo", "--nsys", _nsys(run, 500, 6000)])
     _equational(run, "fifo", scale="4")
 
 
@@ -378,7 +378,7 @@ def c18(run):
         keys = ["%d %d" % (r["id"], i + 1) for i, t in enumerate(r["tasks"]) if t["R"] >= 0]
         return [keys] if r["policy"] == "fifo" else [[k] for k in keys]
     world_stage(run, "attained", "systems", "MCSched.tla", "MCSchedWitness.cfg", witness=alts,
-                extra=["--families", "fp,fifo", "--exact", "1", "--nsys", _nsys(run, 60, 600)])
+                extra=["--families", "fp,fifo", "--exact", "1", "--nsys", _nsys(run, 60, 500)])
 
 
 @check("C19")
@@ -449,7 +449,7 @@ def c04(run):
                        "reservation (Sched.tla) against rta_event_source; non-trivial = some bound exceeds the own WCET")
     run.assumptions += ROS_ASSUME
     world_stage(run, "executor", "ros2sys", "MCRos2Exec.tla", "MCRos2Exec.cfg", slim=("id", "supply", "cbs"),
-                extra=["--family", "ecrts19", "--nsys", _nsys(run, 1400, 12000)])
+                extra=["--family", "ecrts19", "--nsys", _nsys(run, 1400, 14000)])
     world_stage(run, "event-source", "systems", "MCSched.tla", "MCSched.cfg",
                 extra=["--families", "es", "--nsys", _nsys(run, 250, 3000)])
     _ros_equational(run, "0,1,2,3")
